@@ -181,6 +181,7 @@ func runC04(w *World, tier string) (bool, interface{}) {
 	if t > n {
 		t = n
 	}
+	w.LongPasswords = w.Tape.Bool(1, 2, "longPasswords")
 	// participants choose their own names: names that differ in letter case or
 	// white space only must still be different participants (whose deal is whose)
 	if w.Tape.Bool(1, 3, "lookAlikeNames") {
@@ -396,7 +397,7 @@ func runC04(w *World, tier string) (bool, interface{}) {
 		}
 	}
 	wrongOK := 0
-	for k := 0; k < 5; k++ {
+	for k := 0; k < 8; k++ {
 		m, err := airgapped.NewMachine(dir)
 		if err != nil {
 			break
@@ -410,6 +411,19 @@ func runC04(w *World, tier string) (bool, interface{}) {
 			wp[w.Tape.Choose(len(wp), "pwPos")] ^= 0x01
 		case 4: // same length, all zero bytes
 			wp = make([]byte, len(pw))
+		case 5: // the right passphrase with its last character changed
+			wp = append([]byte(nil), pw...)
+			wp[len(wp)-1] ^= 0x01
+		case 6: // the right passphrase cut short (a long common prefix)
+			wp = append([]byte(nil), pw[:len(pw)-1-w.Tape.Choose(max(1, len(pw)/3), "cut")]...)
+		case 7: // the right passphrase with its tail replaced
+			wp = append([]byte(nil), pw...)
+			for j := len(wp) - 1 - w.Tape.Choose(max(1, len(wp)/3), "tail"); j < len(wp); j++ {
+				wp[j] = 'x'
+			}
+			if bytes.Equal(wp, pw) {
+				wp[len(wp)-1] = 'y'
+			}
 		}
 		m.SetEncryptionKey(wp)
 		if err := m.LoadKeysFromDB(); err == nil {
